@@ -46,6 +46,7 @@ type FileSink struct {
 	BytesWritten int64
 
 	// MaxFiles is the maximum number of old files to keep before removing them
+	// (0 keeps all of them, a negative value none)
 	MaxFiles int
 
 	// MaxDuration is the maximum duration allowed between each file rotation
@@ -310,7 +311,11 @@ func (fs *FileSink) pruneFiles() error {
 	// Sort the names, so that the oldest files come first.
 	sort.Strings(matches)
 
+	// A negative MaxFiles keeps no rotated file at all.
 	stale := len(matches) - fs.MaxFiles
+	if stale > len(matches) {
+		stale = len(matches)
+	}
 	for i := 0; i < stale; i++ {
 		if err := os.Remove(matches[i]); err != nil {
 			return err
